@@ -217,6 +217,21 @@ def generate(rng, n, tier="quick"):
                 out.append((case, {"mode": "pbdeco", "oracle": (["must", "<default>"] if simple else
                                                              ["any", "what a definition made while the block body is rendered means for later calls is not stated; model and crate are compared"]),
                                    "shape": [kind, body, layout]}))
+    # an else-chain link that binds block parameters: the selected link's body is rendered with them bound, as on an opening tag
+    kk2 = 0
+    d6 = {"a": 0, "b": {"n": "B"}, "c": [{"n": "C0"}, {"n": "C1"}], "m": {"k1": "v1"}, "t": 1}
+    for src, exp in [
+            ("{{#if a}}A{{else with b as |x|}}[{{x.n}}]{{else}}E{{/if}}", "[B]"),
+            ("{{#if a}}A{{else each c as |v i|}}{{i}}={{v.n}};{{else}}E{{/if}}", "0=C0;1=C1;"),
+            ("{{#if a}}A{{else each m as |v k|}}{{k}}={{v}};{{/if}}", "k1=v1;"),
+            ("{{#unless t}}A{{else if a}}X{{else with b as |x|}}<{{x.n}}|{{n}}>{{/unless}}", "<B|B>"),
+            ("{{#with a as |q|}}A{{else with b as |x|}}[{{x.n}}{{q}}]{{/with}}", "[B]"),
+            ("{{#each a as |q|}}A{{else each c as |v|}}({{v.n}}){{/each}}", "(C0)(C1)"),
+            ("{{#if t}}T{{else with b as |x|}}[{{x.n}}]{{/if}}", "T")]:
+        case = session({"escape": "none"}, [("main", src)], {"api": "render", "name": "main"}, d6)
+        case["id"] = "%s-chainbp%02d" % (ID, kk2)
+        kk2 += 1
+        out.append((case, {"mode": "chainbp", "oracle": ["must", exp], "shape": ["chainbp", src]}))
     # random nested part
     j = 0
     target = len(out) + n
